@@ -4,6 +4,7 @@
 #include "vh.hpp"
 #include <memory>
 #include "romea_core_common/geodesy/ENUConverter.hpp"
+#include "romea_core_common/geodesy/WGS84Coordinates.hpp"
 
 using namespace romea::core;
 using IV = std::vector<long long>;
@@ -70,6 +71,9 @@ static void probe(vh::Rng & r, ENUConverter & c, const Frame & f, vh::Out & out)
       Frame g = f; g.h = f.h + dh; g.negPi = r.coin();
       Eigen::Vector3d v = c.toENU(geo(g));
       out.put(vh::Ev("toEnuGeo").vec("la", f.la).vec("lo", f.lo).i("h", g.h).vec("mm", mm(v)).b("anch", c.isAnchored()));
+      // the latitude / longitude-only overload takes the anchor's altitude
+      Eigen::Vector3d v2 = c.toENU(makeWGS84Coordinates(ang(f.la), ang(f.lo, g.negPi)));
+      out.put(vh::Ev("toEnuGeo").vec("la", f.la).vec("lo", f.lo).i("h", f.h).vec("mm", mm(v2)).b("anch", c.isAnchored()));
     } else {
       IV tq; bool ok = true;
       for (int i = 0; i < 3; ++i) {double x = t[i] * dlo, rx = std::nearbyint(x); if (std::fabs(x - rx) > 1e-3 * dlo) {ok = false;} tq.push_back((long long)rx);}
